@@ -630,7 +630,26 @@ static void run_purge_switch(State& S) {
   for (int i = 0; i < 4; i++) { vf::Blk* b = do_alloc(S, EP_malloc, 17 * MiB + (size_t)vf_rng_below(&r, 8 * MiB)); if (b) { memset(b->p, 0x5b, b->u); S.sm.fill(b); huges.push_back(b); } }
   // some purges are pending (scheduled, not expired) when the switch happens
   for (size_t i = 0; i < pages.size(); i += 3) { do_free(S, pages[i]); pages[i] = nullptr; }
-  if (!huges.empty()) { do_free(S, huges.back()); huges.pop_back(); }
+  uintptr_t pend_lo = 0; size_t pend_len = 0;
+  if (!huges.empty()) { vf::Blk* x = huges.back(); pend_lo = ((uintptr_t)x->p + 4095) & ~(uintptr_t)4095; pend_len = (x->u - (pend_lo - (uintptr_t)x->p)) & ~(size_t)4095; do_free(S, x); huges.pop_back(); }
+  if (d > 0 && (S.cfg.seed & 1)) {
+    // variant: the delay is set to 0 at run time while a whole free segment is waiting for its (delayed) purge: that purge must still happen, by later
+    // activity or a non-forced collect
+    vf_cur_what = "mi_option_set(purge_delay,0)";
+    mi_option_set(mi_option_purge_delay, 0);
+    g_px_rounds = 1;
+    for (int k = 0; k < 4; k++) { tick(S, 2000); small_activity(S, &r, 20); vf_cur_what = "non-forced collect"; mi_collect(false); }
+    if (pend_len > 0 && in_arena(arena_areas(), pend_lo, pend_lo + pend_len)) {
+      size_t res = vf_os_committed_resident(pend_lo, pend_len); g_px_checked++; g_px_bytes += pend_len;
+      if (res > 0)
+        vf_trip("not-purged-after-delay", "C18", "a whole free segment (%zu bytes) was waiting for its purge (purge_delay=%ld) when the delay was set to 0 with mi_option_set; 8 virtual seconds, "
+                "ordinary activity and 4 non-forced collects later %zu bytes of it are still committed and resident", pend_len, d, res);
+    }
+    mi_option_set(mi_option_purge_delay, d);
+    S.sm.verify_all("after switch to 0");
+    free_all(S);
+    return;
+  }
   vf_cur_what = "mi_option_set(purge_delay,-1)";
   mi_option_set(mi_option_purge_delay, -1);
   vf_os_counts_t c0; vf_os_get_counts(&c0);
